@@ -305,13 +305,15 @@ def try_defn(d):
         except Exception:
             gfirst = False
     try:
-        L.add_model(Model(name=d["model"], primary_key=(["id", "id2"] if d["composite"] else "id"),
+        from harness import inherit
+        L.add_model(inherit.maybe(Model(name=d["model"], primary_key=(["id", "id2"] if d["composite"] else "id"),
                           dimensions=[Dimension(name=d["dim"], type="categorical", sql="s0", supported_granularities=d.get("sg_cat")),
                                       # the time dimension's SQL is a bare column, or an expression over it written with or without parentheses (chosen from the names, not from the random stream)
                                       Dimension(name="t_" + d["dim"][:6], type="time", granularity="day", sql=["ts", "ts + INTERVAL 1 DAY", "ts::timestamp", "CAST(ts AS TIMESTAMP)", "ts - INTERVAL 2 HOUR"][(len(d["dim"]) + len(d["meas"])) % 5],
                                                 supported_granularities=d.get("sg_time"))],
                           # a second segment names the model's own DIMENSION (whose name is not a column of the source) instead of the raw column
-                          metrics=mets, segments=[Segment(name=d["seg"], sql="{model}.s0 = 'a'")] + ([Segment(name="zz_by_dim", sql="{model}.\"%s\" = 'a'" % d["dim"])] if d["dim"] not in COLS else []), **src))
+                          metrics=mets, segments=[Segment(name=d["seg"], sql="{model}.s0 = 'a'")] + ([Segment(name="zz_by_dim", sql="{model}.\"%s\" = 'a'" % d["dim"])] if d["dim"] not in COLS else []), **src),
+                                   sorted((k_, repr(v_)) for k_, v_ in d.items()), one_in=3))      # one definition in three: the same fields obtained through `extends`
     except Exception as e:
         return False, {"add_model": "%s: %s" % (type(e).__name__, str(e)[:100])}
     if d.get("graph_metric") == "after":
